@@ -620,8 +620,11 @@ class CWorldMonitor:
                 r["by_close"] = True
                 r["complete_at_close"] = r["complete"]
                 self.table.discard(sid)
-            if kind in ("msg", "more") and r["complete"] >= 1 and not r["cur"]:
-                r["extra"] = r.get("extra", 0) + 1       # response data beyond the first complete message
+            if kind == "more" and r["complete"] >= 1 and not r["cur"]:
+                # a stray continuation frame after a complete message (a protocol error the reader must report).  A further
+                # `msg` frame is not counted here: if that message completes it shows in `complete`, and if the peer closes
+                # the RPC before completing it the client drops the fragment (model and code agree on that)
+                r["extra"] = r.get("extra", 0) + 1
             if kind == "msg":
                 r["cur"] = [int(k["len"]), int(k["size"])]
             elif kind == "more" and r["cur"]:
